@@ -49,6 +49,26 @@ def check_collective(inp, out):
             if not (close(2 * res.amplitude.to_numpy(), [amp2] * 2) and close(2 * res.meanstress.to_numpy(), [mean2] * 2) and close(np.sort(res.cycles.to_numpy()), [3.0, 7.0])):
                 v.append(('%s does not transform amplitude/mean accordingly or touches the cycle counts' % op, {**case, 'operand': arg, 'per_level': not np.isscalar(operand)},
                           {'amp2': amp2, 'mean2': mean2, 'cycles': [3.0, 7.0]}, {'amp2': (2 * res.amplitude).tolist(), 'mean2': (2 * res.meanstress).tolist(), 'cycles': res.cycles.tolist()}))
+    # the same cycle as a load HISTOGRAM (series.load_collective): one class around (from, to) resp. (range, mean); positive scale factors
+    # (a negative factor would turn the class intervals round, which pandas' IntervalIndex rejects: observation O10, not claimed)
+    cpos = abs(inp['c'])
+    fi = pd.IntervalIndex.from_arrays([f - 0.5], [f + 0.5])
+    ti = pd.IntervalIndex.from_arrays([t - 0.5], [t + 0.5])
+    h_ft = pd.Series([4.0], index=pd.MultiIndex.from_arrays([fi, ti], names=['from', 'to']))
+    rng_ = abs(f - t) * 1.0
+    h_rm = pd.Series([4.0], index=pd.MultiIndex.from_arrays([pd.IntervalIndex.from_arrays([rng_ - 0.5], [rng_ + 0.5]), pd.IntervalIndex.from_arrays([(f + t) / 2.0 - 0.5], [(f + t) / 2.0 + 0.5])], names=['range', 'mean']))
+    for name, h in (('from_to_histogram', h_ft), ('range_mean_histogram', h_rm)):
+        if name == 'range_mean_histogram' and rng_ < 0.5:
+            continue
+        lc = h.load_collective
+        if not (close(2 * lc.amplitude.iloc[0], out['amp2']) and close(2 * lc.meanstress.iloc[0], out['mean2']) and close(lc.upper.iloc[0] - lc.lower.iloc[0], out['amp2']) and close(lc.cycles.iloc[0], 4.0)):
+            v.append(('histogram class: amplitude / mean / upper / lower inconsistent', {**case, 'form': name}, {'amp2': out['amp2'], 'mean2': out['mean2']}, {'amp2': float(2 * lc.amplitude.iloc[0]), 'mean2': float(2 * lc.meanstress.iloc[0])}))
+        sc = lc.scale(float(cpos))
+        sh = lc.shift(float(inp['d']))
+        if not (close(2 * sc.amplitude.iloc[0], cpos * out['amp2']) and close(2 * sc.meanstress.iloc[0], cpos * out['mean2']) and close(sc.cycles.iloc[0], 4.0)):
+            v.append(('scaling a histogram does not scale amplitude and mean / touches the counts', {**case, 'form': name, 'factor': cpos}, [cpos * out['amp2'], cpos * out['mean2']], [float(2 * sc.amplitude.iloc[0]), float(2 * sc.meanstress.iloc[0])]))
+        if not (close(2 * sh.amplitude.iloc[0], out['amp2']) and close(2 * sh.meanstress.iloc[0], out['mean2'] + 2 * inp['d']) and close(sh.cycles.iloc[0], 4.0)):
+            v.append(('shifting a histogram does not shift the mean only / touches the counts', {**case, 'form': name, 'shift': inp['d']}, [out['amp2'], out['mean2'] + 2 * inp['d']], [float(2 * sh.amplitude.iloc[0]), float(2 * sh.meanstress.iloc[0])]))
     return v
 
 
